@@ -108,6 +108,11 @@ def cases(tier, seed):
                             if method:
                                 c["method"] = method
                             out.append(c)
+                            if debug == "off" and kind in ("nn_flat", "nn_tied", "em_leaves", "em_list", "sib:em_leaves",
+                                                           "multi_em_nn"):
+                                # the backward pass runs while a substitution of an UNRELATED wrapper is active
+                                # (e.g. inside the function evaluation of an outer functional)
+                                out.append(dict(c, inside=True))
     # ---- (c) every alias partition of up to 5 (quick) / 6 (thorough) declared names
     for k in range(1, (6 if quick else 7)):
         for kindo in ("em", "lo"):
@@ -1295,7 +1300,28 @@ def run_mut(cfg):
                     torch.manual_seed(779)
                     torch.autograd.grad(l2, world.leaves, allow_unused=True)
             return g1
-        ob = call(passes)
+        if cfg.get("inside"):
+            from xitorch._core.pure_function import get_pure_function
+
+            class _Other(xitorch.EditableModule):
+                def __init__(self, w):
+                    self.w = w
+
+                def f(self, x):
+                    return self.w * x
+
+                def getparamnames(self, methodname, prefix=""):
+                    return [prefix + "w"]
+            w_other = torch.ones(2, dtype=torch.float64)
+            other = _Other(w_other)
+            opf = get_pure_function(other.f)
+            with opf.useobjparams([torch.full((2,), 2.0, dtype=torch.float64)]):
+                ob = call(passes)
+            if other.w is not w_other:
+                return {"viol": [V("state-after-reassignment:unrelated-object-not-restored", {}, phase=phase)],
+                        "obs": obs, "status": "violation", "n": 1}
+        else:
+            ob = call(passes)
         if ob.exc is not None:
             status = "backward-raises"          # not judged by this property; the state below still is
             obs["exc"] = _sig(ob.exc)
